@@ -10,7 +10,13 @@ Two universes, one specification (MC_Mismatch EXTENDS SyltArrival EXTENDS SyltMi
     function / of a generic identity, parameter of an annotated function, parameter of an UN-ANNOTATED function whose
     call passes literals / variables / call results; two parameters of one function or of two nested closures)
     x context chains.  Definiteness is decided by the spec's core typing table over the explicit types the arrival
-    forms deliver.
+    forms deliver;
+  * SyltOps: both operands of ONE type that does not have the operator (operator-type table Sup: str - str, bool + bool,
+    lists, blobs, enums, tuples - also nested - with an unsupported component at one position): binary operators over two
+    literals / two variables / ONE variable, field, call result or parameter twice (`s * s`), and the compound
+    assignments += -= *= /= on a local, global, captured variable, blob field, field of a blob parameter with the value a
+    literal, a variable or the target itself, as the last use and followed by a use; plus compound assignments with
+    different types.
 MC_Mismatch
   * mode emit: checks the universes' sanity as ASSUMEs and prints one REPLAY record per case (base and planted
     program as ASTs);
@@ -58,7 +64,7 @@ def tail_of(src):
 def plan(tier):
     if tier == "quick":
         return {"DEPTH": 2, "FULL": 0, "PAIRS": 0, "MOD": 59, "NSLICE": 1}
-    return {"DEPTH": 3, "FULL": 1, "PAIRS": 1, "MOD": 1, "NSLICE": 5}
+    return {"DEPTH": 3, "FULL": 1, "PAIRS": 1, "MOD": 1, "NSLICE": 7}
 
 
 def validate(wd, name, tf, env, complete, workers=None):
@@ -95,13 +101,13 @@ def run(ctx):
         slices = list(range(env0["NSLICE"]))
 
     # accumulated over the slices
-    tot = {"cases": 0, "table_cases": 0, "arrival_cases": 0, "bases_ok": 0, "states": 0, "transitions": 0, "emit_wall_s": 0.0}
+    tot = {"cases": 0, "table_cases": 0, "arrival_cases": 0, "ops_cases": 0, "bases_ok": 0, "states": 0, "transitions": 0, "emit_wall_s": 0.0}
     universe0 = None
     base_rejected = []
     accepted_by_kind = {}
     accepted_by_form = {}
     kinds_ok, kinds_all, inner_ok = set(), set(), set()
-    cores_ok, forms_ok, derived_ok = set(), set(), set()
+    cores_ok, forms_ok, derived_ok, ops_ok = set(), set(), set(), set()
     planted_texts = set()
     samples = []
     neg_material = None
@@ -127,7 +133,7 @@ def run(ctx):
             cases = list(byid.values())
             del byid
             r.records = []
-            ncases = universe["table_cases"] + universe["arrival_cases"]
+            ncases = universe["table_cases"] + universe["arrival_cases"] + universe["ops_cases"]
             if len(cases) != ncases:
                 vlib.tool_error("TLC printed %d cases, the universe (slice %s) has %d" % (len(cases), sl, ncases))
             # vacuity: one Emit step per case (coverage is off, so count the states: one per key, one per case)
@@ -139,6 +145,7 @@ def run(ctx):
             tot["emit_wall_s"] += r.wall_s
             tot["table_cases"] += universe["table_cases"]
             tot["arrival_cases"] += universe["arrival_cases"]
+            tot["ops_cases"] += universe["ops_cases"]
 
         json.dump(prelude, open(pf, "w"))
         vlib.write_ndjson(cf, cases)
@@ -185,15 +192,18 @@ def run(ctx):
                 kinds_ok.add(i_["kind"])
                 inner_ok.add(i_["path"][0])
                 planted_texts.add(hashlib.sha1(s_["planted_src"].encode()).digest()[:10])
-                if i_["m"][0] != 0:
+                if i_["u"] == "ops":
+                    ops_ok.add(i_["kind"])
+                elif i_["u"] == "arrival":
                     cores_ok.add(i_["core"])
                     forms_ok.update(i_["forms"])
                     derived_ok.add(i_["kind"])
         n = len(recs)
         want_samples = [0, n - 1] if n > 1 else range(n)
-        arr = [i for i in range(n) if recs[i]["id"]["m"][0] != 0]
-        if arr:
-            want_samples = list(want_samples) + [arr[len(arr) // 3], arr[(2 * len(arr)) // 3]]
+        for cls in ("arrival", "ops"):
+            arr = [i for i in range(n) if recs[i]["id"]["u"] == cls]
+            if arr:
+                want_samples = list(want_samples) + [arr[len(arr) // 3], arr[(2 * len(arr)) // 3]]
         if len(samples) < 8:
             for i in want_samples:
                 samples.append({"id": recs[i]["id"], "observed": {k: recs[i][k] for k in ("base", "planted", "nerr", "bytes")},
@@ -216,6 +226,8 @@ def run(ctx):
         if n < (20000 if tier == "quick" else 100000):
             vlib.tool_error("vacuity: only %d cases" % n)
         table_kinds_ok = {k for k in kinds_ok if "@" not in k}
+        if len(ops_ok) != u["ops_keys"]:
+            vlib.tool_error("vacuity: %d of %d operator-type mismatches have an accepted base" % (len(ops_ok), u["ops_keys"]))
         if len(table_kinds_ok) != u["kinds"]:
             vlib.tool_error("vacuity: %d of %d table mismatch kinds have an accepted base" % (len(table_kinds_ok), u["kinds"]))
         if kinds_ok != kinds_all:
@@ -255,13 +267,13 @@ def run(ctx):
         if any(i in nrej for i in unfalsified):
             vlib.tool_error("negative control: an unfalsified conforming record was rejected")
         ev.set(negative_controls_rejected=nrej_total,
-               universe={k: universe0[k] for k in ("kinds", "depth", "contexts", "cores", "forms", "derived")},
+               universe={k: universe0[k] for k in ("kinds", "depth", "contexts", "cores", "forms", "derived", "ops_keys", "op_pairs")},
                arrival_forms=universe0["form_names"], arrival_cores=universe0["core_kinds"])
 
     n_accepted = sum(accepted_by_kind.values())
     ev.set(states=tot["states"], transitions=tot["transitions"], emit_wall_s=round(tot["emit_wall_s"], 1),
            traces_validated_against_impl=n, programs=2 * n, evaluations=2 * n, distinct_nontrivial=len(planted_texts),
-           table_cases=tot["table_cases"], arrival_cases=tot["arrival_cases"], plan=env0,
+           table_cases=tot["table_cases"], arrival_cases=tot["arrival_cases"], ops_cases=tot["ops_cases"], plan=env0,
            exhaustive=not ctx.replay, bases_accepted=tot["bases_ok"], bases_rejected=len(base_rejected),
            base_rejected_examples=base_rejected[:3],
            planted_rejected_as_required=tot["bases_ok"] - n_accepted,
@@ -272,11 +284,13 @@ def run(ctx):
                 "start/global); arrival: every core x applicable form vector of SyltArrival (one slot: every form; two slots: both by "
                 "the same form - one shared function and two nested closures for parameter forms - or one of them a literal; PAIRS: "
                 "every ordered pair) in the chains AChains (FULL: all of length <= 2; otherwise tops alone, unused/definfer/printarg "
-                "under start and a seeded 1/MOD sample of length 2); each case compiled in base and planted form with std; "
+                "under start and a seeded 1/MOD sample of length 2); ops: every operator x same unsupported type (SyltOps!Sup) x shape "
+                "(binary: 6 operand shapes x 3 uses; compound assignment: 5 targets x 3 values x last/used) and the different-type compound "
+                "assignments, in every top alone and all (FULL) / a seeded 1/MOD sample of the chains of length 2; each case compiled in base and planted form with std; "
                 "distinct_nontrivial = distinct planted program texts whose base form the compiler accepted",
            samples=samples[:8], known_findings_hit=verdicts.known_hits)
     ev.assume("the mismatches are the property's list instantiated with literals and the prelude's functions/blobs (table MM) and with operands "
-              "that arrive through the forms of SyltArrival; the rule each violates is stated in the tables and decided by the spec's operator "
+              "that arrive through the forms of SyltArrival, and with two operands of one type lacking the operator (SyltOps); the rule each violates is stated in the tables and decided by the spec's operator "
               "/ core typing table over explicit types (literal types, repeated by every annotation an arrival form writes)",
               "the printer renders the ASTs faithfully (an unfaithful rendering shows up as a rejected base or as identical base/planted text: both guarded)",
               "int < float is accepted by design (Cmp) and is not planted; an un-annotated function used at two incompatible types by two call "
